@@ -80,7 +80,7 @@ def pairUp : List Item → List (Item × Item)
   | _ => []
 
 mutual
-/-- one data item; `fuel` bounds the number of items visited (callers pass the input length + 1) -/
+/-- one data item; `fuel` bounds nesting depth plus the number of items visited (see `decTop`) -/
 def decItem : Nat → Bytes → Option (Item × Bytes)
   | 0, _ => none
   | fuel + 1, b =>
@@ -126,9 +126,11 @@ def decItems : Nat → Nat → Bytes → Option (List Item × Bytes)
         | some (l, r') => some (i :: l, r')
 end
 
-/-- a whole input: exactly one item, no trailing bytes -/
+/-- a whole input: exactly one item, no trailing bytes. Fuel: every step of `decItem` / `decItems` either descends one
+    nesting level or moves to the next item of a sequence; an input of n bytes has at most n items and nesting depth
+    at most n, so 2 n + 2 steps always suffice. -/
 def decTop (b : Bytes) : Option Item :=
-  match decItem (b.length + 1) b with
+  match decItem (2 * b.length + 2) b with
   | some (i, []) => some i
   | _ => none
 
